@@ -6,6 +6,7 @@ use std::rc::Rc;
 use subprocess::{Popen, PopenConfig, PopenError, Redirection};
 use vreplay::*;
 
+mod comm;
 mod fail;
 mod ident;
 mod lookup;
@@ -18,6 +19,7 @@ fn main() {
     let (cases, viols) = match fam.as_str() {
         "spawn" => spawn::run(&a),
         "fail" => fail::run(&a),
+        "comm" => comm::run(&a),
         "ident" => ident::run(&a),
         "lookup" => lookup::run(&a),
         _ => {
